@@ -10,6 +10,11 @@
 (* rlf = projection of rl * fs, ftsq / ftsw = projection of                 *)
 (* meta.fileTimeSecs * fs (whole part, is-whole), rowsObs = rows returned   *)
 (* (-1: IndexError), eqObs = the values equal the bytes of the file.        *)
+(* cq, cr (-1, 0: none) = frames / trailing bytes the file held at an      *)
+(* earlier moment of the object's life: when it was constructed with       *)
+(* open=False (possibly followed by an open() that failed while the file   *)
+(* was away), or when it was opened a first time (ReaderOpen!Reopen): then *)
+(* `meta` is the frame count its metadata held after that first open().    *)
 (* The observed state is installed step by step:                           *)
 (*   prop = first false property-layer formula     -> VIOLATION             *)
 (*   impl = first step the implementation layer does not take -> SPEC-DRIFT *)
